@@ -6,7 +6,7 @@
 namespace sim {
 namespace {
 
-struct Blob { double q0, p0, s1, s2, mix, dq, dp; };
+struct Blob { double q0, p0, s1, s2, mix, dq, dp; int shape = 0; };   // shape 0: Gaussian(s), 1: uniform disc of radius 1.8 s1, 2: uniform square of half-width 1.5 s1 (exact zeros outside)
 
 static std::vector<float> blob_data(const Derived& d, unsigned n, const Blob& b) {
     std::vector<float> v((size_t)n * n);
@@ -14,6 +14,8 @@ static std::vector<float> blob_data(const Derived& d, unsigned n, const Blob& b)
     for (unsigned x = 0; x < n; x++) for (unsigned y = 0; y < n; y++) {
         double q = d.q(x), p = d.p(y);
         double g1 = std::exp(-((q - b.q0) * (q - b.q0) + (p - b.p0) * (p - b.p0)) / (2 * b.s1 * b.s1));
+        if (b.shape == 1) g1 = std::hypot(q - b.q0, p - b.p0) < 1.8 * b.s1 ? 1 : 0;
+        else if (b.shape == 2) g1 = (std::fabs(q - b.q0) < 1.5 * b.s1 && std::fabs(p - b.p0) < 1.5 * b.s1) ? 1 : 0;
         double g2 = b.mix > 0 ? std::exp(-((q - b.q0 - b.dq) * (q - b.q0 - b.dq) + (p - b.p0 - b.dp) * (p - b.p0 - b.dp)) / (2 * b.s2 * b.s2)) : 0;
         double val = (1 - b.mix) * g1 / (b.s1 * b.s1) + b.mix * g2 / (b.s2 * b.s2);
         v[(size_t)x * n + y] = (float)val; sum += val;
@@ -67,6 +69,9 @@ struct C03 : Scenario {
             b.q0 = amp * std::cos(ph); b.p0 = amp * std::sin(ph);
             b.s1 = r.uniform(0.5, 0.9); b.s2 = r.uniform(0.4, 0.8);
             b.mix = r.chance(0.4) ? r.uniform(0.2, 0.5) : 0;
+            // "any distribution": a quarter of the starts have compact support with a sharp edge
+            b.shape = (r.chance(0.25) && c.grid <= 110 && c.steps <= 150) ? (int)r.range(1, 2) : 0;
+            if (b.shape) b.mix = 0;
             b.dq = r.uniform(-0.6, 0.6); b.dp = r.uniform(-0.6, 0.6);
             double theta = 2 * M_PI / c.steps;
             // "stays inside the grid" must hold for the numerically broadened blob too: linear interpolation diffuses
@@ -75,14 +80,15 @@ struct C03 : Scenario {
             double seff = std::sqrt(smax * smax + (c.interp == 2 ? (c.steps + 1) * delta * delta / 4 : 0));
             double reach = (amp + (b.mix > 0 ? 0.85 : 0)) * (1 + theta) + 4.6 * seff;
             double half = c.pssize / 2 - std::max(std::fabs(c.shiftx), std::fabs(c.shifty)) * delta;
-            if (half - reach >= 0.3 && std::min(b.s1, b.mix > 0 ? b.s2 : b.s1) / delta >= 2.0) break;
+            if (half - reach >= 0.3 && std::min(b.s1, b.mix > 0 ? b.s2 : b.s1) / delta >= (b.shape ? 3.0 : 2.0)) break;
             if (tries > 60 && c.interp == 2) c.interp = 4;
             if (tries > 100) { c.shiftx = c.shifty = 0; c.pssize = 16; delta = c.pssize / (c.grid - 1); }
             if (tries > 150) { c.grid = std::max(c.grid, 48L); delta = c.pssize / (c.grid - 1); }
         }
+        if (b.shape) { c.saveps = 1; }     // centre of charge of a sharp-edged shape is taken from the stored grids (plain sums), see run()
         c.startfile = "start.h5";
         c.to_plan(p);
-        p.setd("b.q0", b.q0); p.setd("b.p0", b.p0); p.setd("b.s1", b.s1); p.setd("b.s2", b.s2); p.setd("b.mix", b.mix); p.setd("b.dq", b.dq); p.setd("b.dp", b.dp);
+        p.setd("b.q0", b.q0); p.setd("b.p0", b.p0); p.setd("b.s1", b.s1); p.setd("b.s2", b.s2); p.setd("b.mix", b.mix); p.setd("b.dq", b.dq); p.setd("b.dp", b.dp); p.seti("b.shape", b.shape);
         p.setu("entropy", r.u64());
         p.seti("cut", r.chance(0.25) ? r.range(1, c.steps) : -1);
         return p;
@@ -93,7 +99,7 @@ struct C03 : Scenario {
         Cfg cfg = Cfg::from_plan(plan);
         Derived d = derive(cfg);
         unsigned n = (unsigned)cfg.grid;
-        Blob b{plan.getd("b.q0"), plan.getd("b.p0"), plan.getd("b.s1"), plan.getd("b.s2"), plan.getd("b.mix"), plan.getd("b.dq"), plan.getd("b.dp")};
+        Blob b{plan.getd("b.q0"), plan.getd("b.p0"), plan.getd("b.s1"), plan.getd("b.s2"), plan.getd("b.mix"), plan.getd("b.dq"), plan.getd("b.dp"), (int)plan.geti("b.shape", 0)};
         auto data = blob_data(d, n, b);
         if (!h5_write_f32(rc.workdir + "/start.h5", "/PhaseSpace/data", {1, n, n}, data)) { o.set_infra("cannot write start file"); return o; }
         uint64_t entropy = plan.getu("entropy");
@@ -108,11 +114,26 @@ struct C03 : Scenario {
             return true;
         };
         std::vector<double> Q, P;
+        // The recorded /BunchPosition and /EnergyAverage are Simpson-weighted moments; for a discontinuous shape those fluctuate by
+        // up to ~0.4 cell as the edge moves over the mesh (a property of the quadrature, C09's business). For sharp-edged starts the
+        // centre of charge is therefore taken from the stored phase spaces with plain sums, for which the transport is exact.
+        auto centroids = [&](const H5Snap& s, std::vector<double>& q, std::vector<double>& pp) {
+            if (!b.shape) { q = s.values("/BunchPosition/data"); pp = s.values("/EnergyAverage/data"); return; }
+            auto ps = s.get(PS_DATA);
+            q.clear(); pp.clear();
+            if (!ps) return;
+            size_t rl = ps->rowlen();
+            for (size_t rec = 0; rec < ps->rows(); rec++) {
+                double sw = 0, sq = 0, sp = 0;
+                for (unsigned x = 0; x < n; x++) for (unsigned y = 0; y < n; y++) { double w = ps->at(rec * rl + (size_t)x * n + y); sw += w; sq += w * d.q(x); sp += w * d.p(y); }
+                q.push_back(sq / sw); pp.push_back(sp / sw);
+            }
+        };
         long cut = plan.geti("cut", -1);
         if (cut < 0) {
             LaunchResult r; H5Snap s;
             if (!launch(cfg, "run", {}, r, s)) return o;
-            Q = s.values("/BunchPosition/data"); P = s.values("/EnergyAverage/data");
+            centroids(s, Q, P);
         } else {
             // leg 1 is interrupted at the end of step `cut` (hook index found by a dry launch), leg 2 continues from the file
             Cfg c1 = cfg; c1.output = "leg1.h5";
@@ -130,8 +151,8 @@ struct C03 : Scenario {
             long rest = (long)d.laststep - cut;
             c2.rotations = rest > 0 ? (rest - 0.5) / d.steps : 0;
             if (!launch(c2, "leg2", {}, r2, s2)) return o;
-            Q = s1.values("/BunchPosition/data"); P = s1.values("/EnergyAverage/data");
-            auto Q2 = s2.values("/BunchPosition/data"), P2 = s2.values("/EnergyAverage/data");
+            centroids(s1, Q, P);
+            std::vector<double> Q2, P2; centroids(s2, Q2, P2);
             // leg 2's first record repeats the state leg 1 ended with
             for (size_t i = 1; i < Q2.size(); i++) { Q.push_back(Q2[i]); P.push_back(P2[i]); }
             o.probe("reach.cut_and_continued");
@@ -152,6 +173,11 @@ struct C03 : Scenario {
         o.checks++;
         double eq0 = b.q0 + b.mix * b.dq * (b.mix > 0 ? 1 : 0), ep0 = b.p0 + b.mix * b.dp * (b.mix > 0 ? 1 : 0);
         if (b.mix > 0) { double w1 = (1 - b.mix), w2 = b.mix; eq0 = (w1 * b.q0 + w2 * (b.q0 + b.dq)) / (w1 + w2); ep0 = (w1 * b.p0 + w2 * (b.p0 + b.dp)) / (w1 + w2); }
+        if (b.shape) {   // centre of the discretised shape (plain sums over the authored data)
+            double sw = 0, sq = 0, sp = 0;
+            for (unsigned x = 0; x < n; x++) for (unsigned y = 0; y < n; y++) { double w = data[(size_t)x * n + y]; sw += w; sq += w * d.q(x); sp += w * d.p(y); }
+            eq0 = sq / sw; ep0 = sp / sw;
+        }
         if (std::hypot(Q[0] - eq0, P[0] - ep0) > 0.02 + tau) o.fail("C03.loaded_centroid", "first record has centroid (" + fmt_g(Q[0], 6) + "," + fmt_g(P[0], 6) + ") but the start distribution was authored at (" + fmt_g(eq0, 6) + "," + fmt_g(ep0, 6) + ")" + ctx);
         double mq = Q[0], mp = P[0];      // (a) recurrence model
         const double mu = std::acos(std::max(-1.0, 1 - theta * kick / 2));   // phase advance per step of a kick-drift map: tilt ~theta/2 plus a slip of (mu-theta) per step
@@ -216,7 +242,7 @@ struct C03 : Scenario {
         }
         std::string sh = (cfg.shiftx == 0 && cfg.shifty == 0) ? "centred" : cfg.shiftx == cfg.shifty ? "eq" : "uneq";
         std::string sb = cfg.steps < 40 ? "few" : cfg.steps < 150 ? "mid" : "many";
-        o.probe(std::string("cls.") + (cfg.linearRF ? "lin" : "sin") + ".ip" + std::to_string(cfg.interp) + (n % 2 ? ".odd" : ".even") + "." + sh + "." + sb + (b.mix > 0 ? ".mix" : ".gauss") + (cut >= 0 ? ".cut" : ""));
+        o.probe(std::string("cls.") + (cfg.linearRF ? "lin" : "sin") + ".ip" + std::to_string(cfg.interp) + (n % 2 ? ".odd" : ".even") + "." + sh + "." + sb + (b.mix > 0 ? ".mix" : b.shape == 1 ? ".disc" : b.shape == 2 ? ".square" : ".gauss") + (cut >= 0 ? ".cut" : ""));
         if (sh == "uneq") o.probe("reach.unequal_shifts");
         if (n % 2) o.probe("reach.odd_grid");
         o.simperiods = o.simsteps / d.steps;
